@@ -18,7 +18,7 @@ Definition is_word (c : N) : bool := is_alpha c || is_digit c || (c =? 95).     
 Definition is_space (c : N) : bool := in_range 9 13 c || in_range 28 32 c.           (* \s and str.strip() *)
 Definition is_hexdigit (c : N) : bool := is_digit c || in_range 65 70 c || in_range 97 102 c.
 Definition is_labelch (c : N) : bool := is_word c || (c =? 64).                      (* [\w@] *)
-Definition is_symch (c : N) : bool := is_alpha c || is_digit c || (c =? 64).         (* [a-zA-Z\d@] *)
+Definition is_symch (c : N) : bool := is_word c || (c =? 64).                        (* [\w@] (F36) *)
 Definition upper_c (c : N) : N := if is_lower c then c - 32 else c.
 Definition upper_t (t : text) : text := map upper_c t.
 
